@@ -252,7 +252,7 @@ func (c *Ctx) vmModel() (*vmModel, error) {
 			continue
 		}
 		sig := fn.Type().(*types.Signature)
-		if sig.Recv() == nil || !types.Identical(sig.Recv().Type(), c.typeOfRecv(fd)) {
+		if sig.Recv() == nil || !(types.Identical(sig.Recv().Type(), c.typeOfRecv(fd)) || c.isVMHolder(sig.Recv().Type())) {
 			continue
 		}
 		switch funcName(fn) {
@@ -261,46 +261,32 @@ func (c *Ctx) vmModel() (*vmModel, error) {
 		}
 		m.InlineMethods[fn] = it.fd
 	}
-	// plain functions a step of an arm was moved into, when they work on the machine's block values (the
-	// candidates of a bind, the binding built from them): interpreted in place as well
-	mentions := func(t types.Type) bool {
-		switch u := t.(type) {
-		case *types.Slice:
-			return isNamed(u.Elem(), bclPath, "Block")
-		}
-		return isNamed(t, bclPath, "Block") || isNamed(t, bclPath, "Binding")
-	}
-	for _, it := range c.sortedDecls() {
-		fn, ok := it.obj.(*types.Func)
-		if !ok || it.fd == fd || it.fd.Body == nil || it.fd.Recv != nil || fn.Pkg() == nil || fn.Pkg().Path() != bclPath {
-			continue
-		}
-		sig := fn.Type().(*types.Signature)
-		hit := false
-		for i := 0; i < sig.Results().Len(); i++ {
-			if mentions(sig.Results().At(i).Type()) {
-				hit = true
-			}
-		}
-		if !hit {
-			continue
-		}
-		// only those the machine's code calls
-		called := false
+	// plain functions that do not exist in the reference tree and are called from the machine's code: a step of
+	// an arm moved into a function of its own (a classifier of the operands, a selection helper); interpreted in
+	// place as well, so that what they decide is seen where it is used
+	for changed := true; changed; {
+		changed = false
+		bodies := []ast.Node{fd.Body}
 		for _, md := range m.InlineMethods {
-			walkCalls(md.Body, false, func(call *ast.CallExpr) {
-				if c.callee(call) == types.Object(fn) {
-					called = true
-				}
-			})
+			bodies = append(bodies, md.Body)
 		}
-		walkCalls(fd.Body, false, func(call *ast.CallExpr) {
-			if c.callee(call) == types.Object(fn) {
-				called = true
-			}
-		})
-		if called {
-			m.InlineMethods[fn] = it.fd
+		for _, b := range bodies {
+			walkCalls(b, true, func(call *ast.CallExpr) {
+				fn, ok := c.callee(call).(*types.Func)
+				if !ok || fn.Pkg() == nil || fn.Pkg().Path() != bclPath {
+					return
+				}
+				if _, has := m.InlineMethods[fn]; has || c.isReferenceFunc(fn) {
+					return
+				}
+				sig := fn.Type().(*types.Signature)
+				hd := c.funcDecls[fn]
+				if sig.Recv() != nil || hd == nil || hd.Body == nil || hd == fd {
+					return
+				}
+				m.InlineMethods[fn] = hd
+				changed = true
+			})
 		}
 	}
 	// helpers written as methods of the machine instead of closures: classified the same way, interpreted in place
@@ -311,7 +297,7 @@ func (c *Ctx) vmModel() (*vmModel, error) {
 			continue
 		}
 		sig := fn.Type().(*types.Signature)
-		if sig.Recv() == nil || !types.Identical(sig.Recv().Type(), c.typeOfRecv(fd)) {
+		if sig.Recv() == nil || !(types.Identical(sig.Recv().Type(), c.typeOfRecv(fd)) || c.isVMHolder(sig.Recv().Type())) {
 			continue
 		}
 		lit := &ast.FuncLit{Type: it.fd.Type, Body: it.fd.Body}
@@ -537,6 +523,19 @@ func vmHooks(c *Ctx, m *vmModel) Hooks {
 	h.LoopNeutral = func(a, b *State) bool { return pay(a).counters() == pay(b).counters() }
 	h.Load = func(in *Interp, st *State, e ast.Expr) (Value, bool) {
 		p := pay(st)
+		// a single-value type assertion on a run-time value: recorded, so that the rules can ask what the path
+		// knew about that value when it asserted
+		if ta, ok := e.(*ast.TypeAssertExpr); ok && ta.Type != nil {
+			if _, isTuple := c.typeOf(ta).(*types.Tuple); !isTuple {
+				if vs := in.eval(st, ta.X); len(vs) == 1 && vs[0].st == st {
+					v := vs[0].v
+					p.events = append(p.events, vmEvent{Kind: "assert", Detail: types.TypeString(c.typeOf(ta.Type), nil) + " " + v.String(), Pos: ta.Pos()})
+					v.T = c.typeOf(ta)
+					return v, true
+				}
+			}
+			return Value{}, false
+		}
 		switch {
 		case isVMField(e, "tos"):
 			return linV(p.tos), true
@@ -740,8 +739,48 @@ func vmHooks(c *Ctx, m *vmModel) Hooks {
 		p := pay(st)
 		p.events = append(p.events, vmEvent{Kind: "if", Detail: fmt.Sprintf("%s=%v", d, branch), Pos: cond.Pos()})
 	}
+	// a type switch on a run-time value says the same as the type predicates: `case int` is isInt(v), `case nil`
+	// is v == nil
+	h.TypeCase = func(in *Interp, st *State, sw *ast.TypeSwitchStmt, cc *ast.CaseClause, x Value, ts []types.Type) (Value, bool) {
+		if cc == nil || len(cc.List) != 1 {
+			return x, true
+		}
+		d := ""
+		if isNilIdent(cc.List[0]) {
+			d = x.String() + " == nil(<nil>)"
+		} else if len(ts) == 1 && ts[0] != nil {
+			switch types.TypeString(ts[0], nil) {
+			case "int":
+				d = "callres(isInt(" + x.String() + "))"
+			case "float64":
+				d = "callres(isFloat(" + x.String() + "))"
+			case "string":
+				d = "callres(isString(" + x.String() + "))"
+			case "bool":
+				d = "callres(isBool(" + x.String() + "))"
+			}
+		}
+		if d != "" {
+			p := pay(st)
+			p.events = append(p.events, vmEvent{Kind: "if", Detail: d + "=true", Pos: cc.Pos()})
+		}
+		return x, true
+	}
 	h.Assume = func(in *Interp, st *State, cond ast.Expr, branch bool) bool {
-		be, ok := stripParens(cond).(*ast.BinaryExpr)
+		// a test spelled as a one-line predicate (full(), !full()) is the comparison it returns
+		cond = stripParens(cond)
+		for k := 0; k < 3; k++ {
+			if ue, isU := cond.(*ast.UnaryExpr); isU && ue.Op == token.NOT {
+				cond, branch = stripParens(ue.X), !branch
+				continue
+			}
+			if nc := c.unfoldTrivial(cond); nc != cond {
+				cond = stripParens(nc)
+				continue
+			}
+			break
+		}
+		be, ok := cond.(*ast.BinaryExpr)
 		if !ok {
 			return true
 		}
